@@ -457,7 +457,7 @@ class Sim:
 
 
 def gen_case(rnd, u):
-    if rnd.random() < 0.25:
+    if rnd.random() < 0.4:
         # family "chain of three": low (on a deep side fork) -- mid -- high in a line; low and mid synchronise first, mid
         # learns the rest from high only afterwards (what mid downloads is not relayed: low must come back and ask)
         low = rnd.choice(["d15", "d15", "e24", "d27", "t5", "g"])
